@@ -321,6 +321,8 @@ fn run_case(case: usize, nch: usize, script: Option<Vec<Op>>, rng: &mut Rng, len
     let mut late_invoice: Vec<u64> = vec![];
     let mut seen: Vec<u64> = vec![]; // hashes for which the signer has seen an HTLC or an invoice
     let mut violations: Vec<String> = vec![];
+    let mut approval_kind: BTreeMap<u64, u8> = BTreeMap::new();
+    let mut bolt11: BTreeMap<u64, lightning_signer::invoice::Invoice> = BTreeMap::new();
     let mut aborted = false;
     let n_steps = script.as_ref().map(|s| s.len()).unwrap_or(len);
     for step in 0..n_steps {
@@ -393,7 +395,52 @@ fn run_case(case: usize, nch: usize, script: Option<Vec<Op>>, rng: &mut Rng, len
             let r = catch_unwind(AssertUnwindSafe(|| match &op {
                 Op::Invoice(h, a) => {
                     let (_, o) = sys.flight(*h);
-                    let r = sys.node.add_keysend(payee, ph(*h), *a).map(|b| b).unwrap_or(false);
+                    // four routes to an approval: keysend / BOLT11 invoice, each through the Node
+                    // call or as the protocol message (PreapproveKeysend / PreapproveInvoice) to a
+                    // RootHandler with an approving approver.  A hash keeps the kind it got first
+                    // (another kind for a known hash is "a different invoice": refused).
+                    use vls_protocol::msgs::{self, Message, SerBolt};
+                    use vls_protocol_signer::handler::Handler;
+                    let via_msg = rng.chance(1, 2);
+                    let kind = *approval_kind.entry(*h).or_insert_with(|| if rng.chance(1, 2) { 1u8 } else { 0u8 });
+                    let now_secs = { use lightning_signer::util::clock::Clock; sys.world.clock.now().as_secs() };
+                    let r = if kind == 1 {
+                        let inv = bolt11.entry(*h).or_insert_with(|| make_bolt11(ph(*h).0, *a, now_secs)).clone();
+                        if via_msg {
+                            let root = make_root_handler(&sys.node, 6);
+                            let s = match &inv {
+                                lightning_signer::invoice::Invoice::Bolt11(b) => b.to_string(),
+                                _ => unreachable!(),
+                            };
+                            let m = msgs::PreapproveInvoice { invstring: vls_protocol::serde_bolt::WireString(s.into_bytes()) };
+                            let msg = msgs::from_vec(m.as_vec()).expect("request survives the wire");
+                            match root.handle(msg).map(|rep| msgs::from_vec(rep.as_vec())) {
+                                Ok(Ok(Message::PreapproveInvoiceReply(rep))) => rep.result,
+                                _ => false,
+                            }
+                        } else {
+                            sys.node.add_invoice(inv).unwrap_or(false)
+                        }
+                    } else if via_msg {
+                        let root = make_root_handler(&sys.node, 6);
+                        let m = msgs::PreapproveKeysend {
+                            destination: vls_protocol::model::PubKey(payee.serialize()),
+                            payment_hash: vls_protocol::model::Sha256(ph(*h).0),
+                            amount_msat: *a,
+                        };
+                        let msg = msgs::from_vec(m.as_vec()).expect("request survives the wire");
+                        match root.handle(msg).map(|rep| msgs::from_vec(rep.as_vec())) {
+                            Ok(Ok(Message::PreapproveKeysendReply(rep))) => rep.result,
+                            _ => false,
+                        }
+                    } else {
+                        sys.node.add_keysend(payee, ph(*h), *a).map(|b| b).unwrap_or(false)
+                    };
+                    // the amount of a BOLT11 invoice is the one it was created with
+                    let a = &match (kind, bolt11.get(h)) {
+                        (1, Some(lightning_signer::invoice::Invoice::Bolt11(b))) => b.amount_milli_satoshis().unwrap_or(*a),
+                        _ => *a,
+                    };
                     if r && !invoices.contains_key(h) {
                         invoices.insert(*h, *a);
                         if o > 0 || seen.contains(h) {
